@@ -29,8 +29,8 @@ FEATS = ['unconn_in', 'unconn_out', 'ff_no_d', 'out_read', 'wiring', 'consts']
 
 def plan(tier, seed):
     if tier == 'quick':
-        return [{'n': 90, 'max_gates': 60} for _ in range(16)]
-    return [{'n': 900, 'max_gates': 60} for _ in range(12)] + [{'n': 60, 'max_gates': 300} for _ in range(4)]
+        return [{'n': 600, 'max_gates': 60} for _ in range(15)] + [{'n': 30, 'max_gates': 300}]
+    return [{'n': 12000, 'max_gates': 60} for _ in range(12)] + [{'n': 700, 'max_gates': 300} for _ in range(4)]
 
 
 def conclude(agg):
